@@ -15,9 +15,11 @@ ASSUMPTIONS = [
     "source applies is decided by Labels!LabelSource in TLC",
     "an error 'names' a module when the module's dotted name occurs in the message as a maximal dotted-identifier token",
     "drawing options are compared by repr(); only plain scalars are passed",
+    "alias texts never end with '.<lower-case identifier>', so the text of a label determines which aliased module "
+    "it was built from (rendered module names are lower case) - otherwise the back-projection would be ambiguous",
 ]
 
-ALIAS_TEXTS = ["A", "B.c", "x+", "(y", "\\1", "L.M.N", "", "q", "[z]", "a|b", "$", "al ias", "r", "r.a", "*", "Z9"]
+ALIAS_TEXTS = ["A", "B.C", "x+", "(y", "\\1", "L.M.N", "", "q", "[z]", "a|b", "$", "al ias", "r", "r.A", "*", "Z9"]
 KW_POOL = [("node_size", 10), ("with_labels", False), ("font_size", 7), ("arrows", True), ("node_color", "red"),
            ("width", 1.5), ("alpha", 0.5)]
 
@@ -55,7 +57,7 @@ def viz_items(rng, alias_mods, k0=0, with_rename=False, render=None):
              {"op": "viz", "rid": f"V{k0}o", "aliases": al, "kw": _kw(rng), "spacing": None, "order": "desc", "render": r0},
              {"op": "law", "law": "same", "as": [r0, r0], "rids": [f"V{k0}", f"V{k0}o"]}]
     if with_rename:      # C14: the same abstract call under the collision-free and the adversarial renamings
-        for r2 in ("clean", "adv", "adv2"):
+        for r2 in ("clean", "adv", "adv2", "adv3"):
             if r2 != r0:
                 items.append({"op": "viz", "rid": f"V{k0}", "aliases": al, "kw": kw, "spacing": sp, "render": r2})
                 items.append({"op": "law", "law": "rename", "as": [r0, r2], "rids": [f"V{k0}", f"V{k0}"]})
@@ -75,7 +77,7 @@ def specs_for(ctx):
     for i in range(n_worlds):
         w = random_world(rng, n_modules=rng.randint(6, 30), n_imports=rng.randint(0, 30))
         items = []
-        rnd = rng.choice(["ident", "clean", "adv", "adv2"])
+        rnd = rng.choice(["ident", "clean", "adv", "adv2", "adv3"])
         for k in range(4):
             n = rng.randint(0, 6)
             mods = rng.sample(w.modules, min(n, len(w.modules)))
